@@ -30,7 +30,7 @@ REQUIRED_FAMILIES = [
     "robust-exact-core",
     "robust-smooth",
 ]
-BUDGET = {"quick": 600, "thorough": 4500}
+BUDGET = {"quick": 1200, "thorough": 7200}
 MAX_DISCARD_FRACTION = 0.05
 
 # tolerances (statement / DESIGN.md C16) -------------------------------------------------------------
